@@ -3,7 +3,7 @@
 use crate::engine::{CaseResult, Fail, Prop, Report, Tier};
 use crate::gen::{bits_spec, classify_bits, max_bits, BitsSpec};
 use crate::model::{check_bitvec, Bits, Model, Plan, SetModel};
-use crate::util::frac;
+use crate::util::{frac, hash_of, mix};
 use crate::{ensure, ensure_eq};
 use proptest::prelude::*;
 use serde::{Deserialize, Serialize};
@@ -28,6 +28,9 @@ pub struct Case {
     pub order: Vec<u8>,
     /// extra query arguments as fractions of the length / of the counts
     pub extra: Vec<u16>,
+    /// a piecewise periodic vector beyond 2^32 bits given as zones (length, period); the other fields select supports and arguments
+    #[serde(default)]
+    pub giant: Option<Vec<(u64, u32)>>,
 }
 
 pub const NUM_ROUTES: u8 = 11;
@@ -263,7 +266,7 @@ fn check(case: &Case, full_limit: usize) -> CaseResult {
 impl Prop for C01 {
     type Case = Case;
     const ID: &'static str = "C01";
-    const RULE: &'static str = "bit sequences by regime (lengths around 64/512/4096/2^16/bit_len^4 thresholds; uniform densities 0.001..0.999, clustered runs, 4096 packed + few spread ones, complemented) built by one of 11 public routes (raw vector by push_bit / set_bit / clearing bits / push_int chunks / pushes interleaved with popped junk / complement(), bool iterators with and without size hint, conversions from the sparse and run-length vector) with supports enabled in a generated order, every query compared with a sorted-set model (all arguments 0..=len+1 and extremes when len <= limit, structural edges + sampled otherwise); plus all bit strings of length <= 12 (quick) / 16 (thorough). Non-trivial: len >= 2 and 0 < ones < len; distinct by (len, bits) digest.";
+    const RULE: &'static str = "bit sequences by regime (lengths around 64/512/4096/2^16/bit_len^4 thresholds; uniform densities 0.001..0.999, clustered runs, 4096 packed + few spread ones, complemented) built by one of 11 public routes (raw vector by push_bit / set_bit / clearing bits / push_int chunks / pushes interleaved with popped junk / complement(), bool iterators with and without size hint, conversions from the sparse and run-length vector) with supports enabled in a generated order, every query compared with a sorted-set model (all arguments 0..=len+1 and extremes when len <= limit, structural edges + sampled otherwise); plus all bit strings of length <= 12 (quick) / 16 (thorough). Plus 1 (quick) / 3 (thorough) piecewise periodic vectors of 2^32 + k up to 2^33 bits per configuration (dense, empty, full and sparse zones; more than 2^32 set or unset bits in the thorough ones), compared with a closed-form model at ~60 000 arguments each (zone edges, +-70 around 2^31/2^32/2^33 as positions and as ranks, around 20 000 evenly spread set bits). Non-trivial: len >= 2 and 0 < ones < len; distinct by (len, bits) digest.";
 
     fn cases(tier: Tier) -> u32 {
         tier.pick(2400, 60_000)
@@ -271,7 +274,7 @@ impl Prop for C01 {
 
     fn strategy(tier: Tier, _cfg: &str) -> BoxedStrategy<Case> {
         (bits_spec(max_bits(tier)), 0u8..NUM_ROUTES, proptest::collection::vec(any::<u8>(), 0..6), proptest::collection::vec(0u8..4, 0..6), proptest::collection::vec(any::<u16>(), 0..64))
-            .prop_map(|(bits, route, chunk, order, extra)| Case { bits, route, chunk, order, extra })
+            .prop_map(|(bits, route, chunk, order, extra)| Case { bits, route, chunk, order, extra, giant: None })
             .boxed()
     }
 
@@ -285,7 +288,17 @@ impl Prop for C01 {
                     continue;
                 }
                 let bools: Vec<bool> = (0..len).map(|i| (v >> i) & 1 == 1).collect();
-                let case = Case { bits: BitsSpec::Bools(bools), route: (idx % NUM_ROUTES as usize) as u8, chunk: vec![(idx % 7) as u8], order: vec![(idx % 4) as u8, ((idx / 4) % 4) as u8], extra: vec![] };
+                let case = Case { bits: BitsSpec::Bools(bools), route: (idx % NUM_ROUTES as usize) as u8, chunk: vec![(idx % 7) as u8], order: vec![(idx % 4) as u8, ((idx / 4) % 4) as u8], extra: vec![], giant: None };
+                if !emit(case) {
+                    return;
+                }
+            }
+        }
+        // vectors beyond 2^32 bits: one per shard at most
+        let giants = giant_specs(tier);
+        for (k, g) in giants.into_iter().enumerate() {
+            if k % nshards == shard {
+                let case = Case { bits: BitsSpec::Bools(Vec::new()), route: 0, chunk: vec![], order: vec![(k % 4) as u8, ((k / 2) % 4) as u8], extra: vec![k as u16 * 7919, 65535 - k as u16 * 104, 32768], giant: Some(g) };
                 if !emit(case) {
                     return;
                 }
@@ -298,12 +311,15 @@ impl Prop for C01 {
     }
 
     fn run(case: &Case) -> CaseResult {
+        if let Some(zones) = &case.giant {
+            return check_giant(case, zones);
+        }
         // every argument for vectors up to this length, edges + sampled above
         check(case, 20_000)
     }
 
     fn health(classes: &BTreeMap<String, u64>, _tier: Tier) -> Result<(), String> {
-        for c in ["long-superblock(ones)", "long-superblock(zeros)", "short-superblock(ones)", "short-superblock(zeros)", ">1-superblock(ones)", ">1-superblock(zeros)", "long+short(ones)", "long+short(zeros)", ">=2-long-superblocks(ones)", ">=2-long-superblocks(zeros)", "long-after-short(ones)", "short-after-long(ones)", "long-after-short(zeros)", "short-after-long(zeros)", "partial-last-word", "plan:all-arguments", "plan:edges+sampled"] {
+        for c in ["long-superblock(ones)", "long-superblock(zeros)", "short-superblock(ones)", "short-superblock(zeros)", ">1-superblock(ones)", ">1-superblock(zeros)", "long+short(ones)", "long+short(zeros)", ">=2-long-superblocks(ones)", ">=2-long-superblocks(zeros)", "long-after-short(ones)", "short-after-long(ones)", "long-after-short(zeros)", "short-after-long(zeros)", "partial-last-word", "plan:all-arguments", "plan:edges+sampled", "giant(>2^32 bits)"] {
             if classes.get(c).copied().unwrap_or(0) == 0 {
                 return Err(format!("no generated case reached class {}", c));
             }
@@ -315,9 +331,105 @@ impl Prop for C01 {
         vec![
             "get is asked only below len and rank_zero only up to len (their documented domains)".into(),
             "vectors above 20 000 bits are queried at structural edges (word/512-bit block/4096-one superblock/64-one block boundaries +-1), around 3000 evenly spread set bits, and at generated arguments, not at every argument".into(),
-            "plain bitvectors are limited to 450 000 bits (quick) / 2 000 000 bits (thorough)".into(),
+            "generated plain bitvectors are limited to 450 000 bits (quick) / 2 000 000 bits (thorough); beyond that only the listed piecewise periodic vectors of 2^32..2^33 bits are built".into(),
         ]
     }
+}
+
+/// Zone lists (length, period) of the vectors beyond 2^32 bits: dense short superblocks, long superblocks (4096 set bits
+/// spanning more than bit_len(n)^4 ~ 1.2M bits need a period above ~290), empty and full zones, boundaries next to 2^32.
+fn giant_specs(tier: Tier) -> Vec<Vec<(u64, u32)>> {
+    let g32 = 1u64 << 32;
+    let mut v = vec![
+        // dense periodic start, a gap, then sparse (long superblocks) across 2^32
+        vec![(1 << 31, 9), ((1 << 31) - (1 << 22), 0), ((1 << 23) + 77, 700)],
+    ];
+    if tier == Tier::Thorough {
+        // almost full: the unset bits are sparse and lie beyond 2^32 ranks
+        v.push(vec![(g32 + 12_345, 1), (1 << 24, 300), (1 << 20, 2), (999, 1)]);
+        // 2^33 bits, more than 2^32 unset bits before a dense tail
+        v.push(vec![(g32 + 5, 513), (g32 - 64, 5), (64 + 31, 0)]);
+    }
+    v
+}
+
+fn check_giant(case: &Case, zones: &[(u64, u32)]) -> CaseResult {
+    use crate::model::PeriodicModel;
+    let mut rep = Report::new();
+    let spec: Vec<(usize, usize)> = zones.iter().map(|&(l, k)| (l as usize, k as usize)).collect();
+    let model = PeriodicModel::new(&spec);
+    let n = model.n();
+    let mut raw = RawVector::with_len(n, false);
+    for z in 0..model.zones.len() {
+        let (start, end, k) = model.zones[z];
+        if k == 1 {
+            // a full zone: whole words at a time
+            let mut p = start;
+            while p < end && p % 64 != 0 {
+                raw.set_bit(p, true);
+                p += 1;
+            }
+            while p + 64 <= end {
+                unsafe { raw.set_int(p, u64::MAX, 64) };
+                p += 64;
+            }
+            while p < end {
+                raw.set_bit(p, true);
+                p += 1;
+            }
+        } else {
+            for p in model.zone_ones(z) {
+                raw.set_bit(p, true);
+            }
+        }
+    }
+    let mut bv = BitVector::from(raw);
+    for &w in &case.order {
+        enable(&mut bv, w);
+    }
+    bv.enable_rank();
+    bv.enable_select();
+    bv.enable_select_zero();
+    let m = model.m();
+    let zeros = model.zeros();
+    let g32 = 1usize << 32;
+    let mut extra_idx: Vec<usize> = Vec::new();
+    let mut extra_ranks: Vec<usize> = Vec::new();
+    for d in 0..70usize {
+        for base in [g32, g32 / 2, g32 * 2] {
+            extra_idx.push(base + d);
+            extra_idx.push(base - d);
+            extra_ranks.push(base + d);
+            extra_ranks.push(base.saturating_sub(d));
+        }
+    }
+    for &(start, end, _) in &model.zones {
+        for d in 0..3usize {
+            extra_idx.push(start + d);
+            extra_idx.push(start.saturating_sub(d));
+            extra_idx.push(end.saturating_sub(d));
+        }
+        let (r0, r1) = (model.rank(start), model.rank(end));
+        let (z0, z1) = (start - r0, end - r1);
+        for d in 0..3usize {
+            for r in [r0, r1, z0, z1] {
+                extra_ranks.push(r + d);
+                extra_ranks.push(r.saturating_sub(d));
+            }
+        }
+    }
+    for (j, &f) in case.extra.iter().enumerate() {
+        extra_idx.push(frac(f, n));
+        extra_ranks.push(frac(f, if j % 2 == 0 { m } else { zeros }));
+    }
+    let plan = Plan::sampled(&model, 20_000, &extra_idx, &extra_ranks, 0);
+    check_bitvec(&bv, &model, &plan, "BitVector(>2^32 bits)")?;
+    rep.evals += (plan.idx.len() + plan.ranks.len() + plan.zranks.len()) as u64;
+    rep.class("giant(>2^32 bits)");
+    rep.class_if(m > g32, "giant:>2^32 ones");
+    rep.class_if(zeros > g32, "giant:>2^32 zeros");
+    rep.nontrivial(mix(0x91a7, hash_of(&zones.to_vec())));
+    Ok(rep)
 }
 
 #[allow(dead_code)]
